@@ -46,8 +46,15 @@ ENOENT = 2
 
 
 def extra_parts(ctx):
-    """HOOK for the lead: third part of C18 (qmail-send's report channels in the driven world). Called last by run()."""
-    pass
+    """Third part of C18: qmail-send's report channels in the driven world (lib/qworld.py, lib/qhistory.py, props/qs_common.py profile
+    "C18"). While 0-3 deliveries are outstanding the driver writes hostile bytes on the report descriptors: reports for delivery numbers
+    that are unused or out of range, forged K/D, empty reports, 12 kB reports, forged bounce paragraphs, legitimate reports split across two
+    writes at a generated offset, unknown letters. Any state change they cause shows up in the ledger (a mark without a report, a freed slot,
+    a forged bounce paragraph, a dropped recipient), so every ledger violation of such a history counts for C18; the daemon must stay alive."""
+    if ctx.only is not None and "send" not in ctx.only:
+        return
+    from props import qs_common as q
+    q.search(ctx, "C18", ("C18", "C03", "C04", "C14"), 40, 600)
 
 
 TOOLS = {"shim": sandbox.SHIM, "standin": sandbox.STANDIN}
